@@ -3,6 +3,10 @@ package main
 import (
 	"encoding/json"
 	"fmt"
+	"math/big"
+	"mltwist/internal/deps"
+	"mltwist/internal/parser"
+	"mltwist/pkg/model"
 	"strings"
 
 	"mltwist/internal/exprtransform"
@@ -25,7 +29,51 @@ func hasLess(e expr.Expr) bool {
 	return false
 }
 
+// c13Jumps: the same property through the code model — the alternatives deps derives for an
+// instruction-pointer write (Possibilities, folded, minus the fall-through address). Under
+// every valuation the written value is the fall-through address or the value of an alternative.
+func c13Jumps(ref treeRef) *eng.Fail {
+	e := ref.expr()
+	ref.Show = ir.Show(e)
+	for _, addr := range []uint64{0x100fc, 0xfc, 0xfffffffc, 0x1000} {
+		ins := parser.Instruction{Addr: model.Addr(addr), Bytes: make([]byte, 4), Effects: []expr.Effect{expr.NewRegStore(e, expr.IPKey, e.Width())}}
+		end := new(big.Int).SetUint64(addr + 4)
+		var alts []expr.Expr
+		p, stack := eng.Catch(func() { alts = deps.VerifJumps(ins) })
+		if p != nil {
+			return &eng.Fail{Sig: "jumps panic " + eng.PanicSite(stack), What: fmt.Sprintf("jump targets of ip := %s at %#x: panic %v", ref.Show, addr, p), Case: ref}
+		}
+		for _, a := range alts {
+			if a == nil || a.Width() != e.Width() || hasLess(a) {
+				return &eng.Fail{Sig: "jumps alternative malformed", What: fmt.Sprintf("jump target %v of ip := %s at %#x has another width or a conditional", a, ref.Show, addr), Case: ref}
+			}
+		}
+		for i := range valuations {
+			env := valuations[i].env()
+			val := ir.Eval(e, env)
+			if val.Cmp(end) == 0 {
+				continue
+			}
+			found := false
+			for _, a := range alts {
+				if ir.Eval(a, env).Cmp(val) == 0 {
+					found = true
+					break
+				}
+			}
+			if !found {
+				v := valuations[i]
+				return &eng.Fail{Sig: "jumps uncovered " + kindOf(e), What: fmt.Sprintf("ip := %s at %#x (falls through to %#x): under r1=%#x r2=%#x seed=%d the value is %#x, which is neither the fall-through address nor the value of any of the %d jump targets", ref.Show, addr, end, v.R1, v.R2, v.Seed, val, len(alts)), Case: ref}
+			}
+		}
+	}
+	return nil
+}
+
 func c13Run(ref treeRef) (*eng.Fail, int) {
+	if ref.Jumps {
+		return c13Jumps(ref), 2
+	}
 	e := ref.expr()
 	ref.Show = ir.Show(e)
 	var alts []expr.Expr
@@ -89,13 +137,21 @@ func c13Run(ref treeRef) (*eng.Fail, int) {
 
 func init() {
 	checks["C13"] = eng.Check{
-		Rule:        "Possibilities(e) on every tree of the C09 spaces (conditionals as operands, branches, conditions and memory-load addresses; up to 2 internal nodes quick, 3 thorough; plus 'twin' trees of 5..7 internal nodes: binary operations / load addresses / branches over two conditionals on the same outer condition whose arms hold independent inner conditionals, judged under all 16 combinations of the conditions): every alternative has e's width and no Less; under each of 9 valuations some alternative has e's value; a second call on the same tree gives the same alternatives. Non-trivial = tree with more than one alternative. Also the chains of two decided conditionals of C09.",
+		Rule:        "Possibilities(e) on every tree of the C09 spaces (conditionals as operands, branches, conditions and memory-load addresses; up to 2 internal nodes quick, 3 thorough; plus 'twin' trees of 5..7 internal nodes: binary operations / load addresses / branches over two conditionals on the same outer condition whose arms hold independent inner conditionals, judged under all 16 combinations of the conditions): every alternative has e's width and no Less; under each of 9 valuations some alternative has e's value; a second call on the same tree gives the same alternatives. The same through the code model: for every tree of the leaf, 1-node and twin spaces written to the instruction pointer by an instruction at 4 addresses (fall-through address beyond the value's width, at 2^32, ...), the jump targets deps derives cover every value except the fall-through address. Non-trivial = tree with more than one alternative. Also the chains of two decided conditionals of C09.",
 		Assumptions: []string{"coverage of outcomes is decided on 9 valuations chosen so that each Less takes both branches somewhere"},
 		Run: func(r *eng.Run) {
 			names := []string{"leaf", "t1", "t2", "gadget", "condchain", "twin", "wide"}
 			if !r.Quick() {
 				names = append(names, "t3tiny")
 			}
+			forTrees(r, []string{"leaf", "t1", "twin"}, func(ref treeRef, e expr.Expr) {
+				ref.Jumps = true
+				if f := c13Jumps(ref); f != nil {
+					r.Report(f)
+					r.Outcome(f.Sig)
+				}
+				r.Eval(1)
+			})
 			forTrees(r, names, func(ref treeRef, e expr.Expr) {
 				f, n := c13Run(ref)
 				r.Eval(1)
